@@ -93,7 +93,7 @@ impl Nearest {
     pub fn unique(&self) -> bool {
         self.near.len() == 1
     }
-    /// the assignment is determined: unique minimum, or exact tie (lowest index wins)
+    /// the set of admissible clusters is known exactly: unique minimum, or an exact tie (any member)
     pub fn determined(&self) -> bool {
         self.near.len() == 1 || self.exact_tie
     }
